@@ -18,7 +18,7 @@ class C09:
                  "judged by a trace monitor over the time-stamped bus log (clearance, order, pacing, grants)")
     RULE = ("Hypothesis draws sessions as in C03 plus stack-vs-stack ones, with max_cmdt_packets 1..255 on both sides, "
             "minimum_tp_bam_dt_interval in {default, 10..190 ms}, minimum_tp_rts_cts_dt_interval in {None, 1..50 ms}, RTS limits "
-            "1..255, grants 1..limit and 0-3 holds from the reference responder, latencies 0..5 ms, and for J1939-22 broadcasts 0-3 further broadcast sessions of the same stack running at the same time "
+            "1..255 (plus an enumeration of the responder-side grant boundaries: RTS limit x own maximum in {1,2,254,255} x 2/3/5/40 packets), in two cases of five another ECU object with other intervals and window was created earlier in the process, grants 1..limit and 0-3 holds from the reference responder, latencies 0..5 ms, and for J1939-22 broadcasts 0-3 further broadcast sessions of the same stack running at the same time "
             "(frame writes taking 0..2 ms); the monitor checks: no "
             "data packet outside the window the last CTS cleared (none before the first CTS, none after a hold), in-order "
             "numbering, BAM spacing >= configured/default interval and <= max(200 ms, interval)+latency, connection-mode "
@@ -39,7 +39,23 @@ class C09:
         return 2500 if tier == "quick" else 200000
 
     def enumerate(self, tier):
-        return []
+        # grant boundaries of the stack as responder: RTS limit x own maximum x packet count at their extremes
+        # (random draws hit "limit exactly 255 with an own maximum above the packet count" only a few times per run)
+        out = []
+        for dll in ("j1939-21", "j1939-22"):
+            seg = 60 if dll == "j1939-22" else 7
+            for limit in (1, 2, 254, 255):
+                for own in (1, 2, 254, 255):
+                    for packets in (2, 3, 5, 40):
+                        i = len(out)
+                        out.append({"dll": dll, "role": "resp", "mode": "rts",
+                                    "pl": {"n": seg * (packets - 1) + 1 + i % (seg - 1), "cls": "arith", "a": i % 256, "b": 3, "tile": [1], "seg": seg},
+                                    "max_cmdt": own, "max_cmdt_r": 255, "dp": 0, "prio": 6,
+                                    "lat": {"S": [0.0005], "P": [0.0005]}, "eps": [0.0], "disp": [0.0], "bam_dt": None, "rts_dt": None,
+                                    "sas": [0x30, 0x90], "tx_time": 0.0, "app_timer": None, "pf": 0xD1, "ps": None,
+                                    "peer": {"grants": [255], "holds": [0], "hold_gap": 0.1, "rereq": [], "reply_lat": [0.001],
+                                             "limit": limit, "dt_gap": 0.001, "bam_gap": 0.05, "session": i % 8 if dll == "j1939-22" else 0}})
+        return out
 
     def exhaustive(self, tier):
         return False
